@@ -53,17 +53,20 @@ theorem getConnectedComponents_eq (cc : CC) (m : Mat) (strong fb : Bool) (labels
       rw [hp]
       split <;> rfl
 
-/-- With scipy's contract, the labels returned by `get_connected_components` are equal exactly for
-    nodes of the same weak / strong component of the (block) adjacency. -/
+/-- With scipy's contract **for the adjacency that is handed to scipy** (the matrix itself, or its block form), the
+    labels returned by `get_connected_components` are equal exactly for nodes of the same weak / strong component of
+    that adjacency. (The contract is not assumed of every `Mat`: on an ill-formed one no weak labelling exists.) -/
 theorem getConnectedComponents_components (cc : CC) (m : Mat) (strong fb : Bool) (labels : List Nat)
     (h : getConnectedComponents cc m strong fb = .ok labels)
-    (hcc : ∀ g : Mat, IsLabelling g.nRow g.adj strong (cc g strong)) :
+    (hcc : IsLabelling (if (fb || !m.isSquare) = true then m.block else m).nRow
+      (if (fb || !m.isSquare) = true then m.block else m).adj strong
+      (cc (if (fb || !m.isSquare) = true then m.block else m) strong)) :
     let g := if (fb || !m.isSquare) = true then m.block else m
     labels.length = g.nRow ∧
     ∀ u v, u < g.nRow → v < g.nRow → (labels.getD u 0 = labels.getD v 0 ↔ SameComp g.nRow g.adj strong u v) := by
   intro g
   obtain ⟨_, rfl⟩ := getConnectedComponents_eq cc m strong fb labels h
-  exact hcc g
+  exact hcc
 
 example : getConnectedComponents (fun _ _ => [0, 0, 1]) ⟨3, 3, fun i => if i = 0 then [1] else [], fun _ _ => 1⟩ false false
     = .ok [0, 0, 1] := by rfl
@@ -72,7 +75,9 @@ example : getConnectedComponents (fun _ _ => [0, 0, 1]) ⟨3, 3, fun i => if i =
     contract, exactly when every two nodes lie in the same weak / strong component. -/
 theorem isConnected_iff (cc : CC) (m : Mat) (strong fb : Bool) (b : Bool)
     (h : isConnected cc m strong fb = .ok b)
-    (hcc : ∀ g : Mat, IsLabelling g.nRow g.adj strong (cc g strong)) :
+    (hcc : IsLabelling (if (fb || !m.isSquare) = true then m.block else m).nRow
+      (if (fb || !m.isSquare) = true then m.block else m).adj strong
+      (cc (if (fb || !m.isSquare) = true then m.block else m) strong)) :
     let g := if (fb || !m.isSquare) = true then m.block else m
     (b = true ↔ 0 < g.nRow ∧ ∀ u v, u < g.nRow → v < g.nRow → SameComp g.nRow g.adj strong u v) := by
   intro g
@@ -118,6 +123,25 @@ theorem contract_line_certifies (n : Nat) (adj : Nat → List Nat) (hwf : ∀ u,
 
 example : isLabellingB 3 (fun i => if i = 0 then [1] else []) false [0, 0, 1] = some true := by decide
 example : isLabellingB 3 (fun i => if i = 0 then [1] else []) true [0, 1, 2] = some true := by decide
+
+/-- Non-vacuity of `getConnectedComponents_components` / `isConnected_iff`, weak mode (the library default): the graph
+    0 → 1, 2 alone with the labelling [0, 0, 1] meets the contract hypothesis (square matrix, not forced bipartite),
+    and so does the 1 × 2 biadjacency `[1 0]` in its block form with [0, 1, 0]. -/
+def edgeAndNode : Mat := ⟨3, 3, fun i => if i = 0 then [1] else [], fun i j => if i = 0 ∧ j = 1 then 1 else 0⟩
+
+example : IsLabelling (if (false || !edgeAndNode.isSquare) = true then edgeAndNode.block else edgeAndNode).nRow
+    (if (false || !edgeAndNode.isSquare) = true then edgeAndNode.block else edgeAndNode).adj false
+    ((fun _ _ => [0, 0, 1]) (if (false || !edgeAndNode.isSquare) = true then edgeAndNode.block else edgeAndNode) false) :=
+  contract_line_certifies 3 edgeAndNode.adj (by decide) false [0, 0, 1] (by decide)
+
+example : isConnected (fun _ _ => [0, 0, 1]) edgeAndNode false false = .ok false := by rfl
+
+def oneByTwo : Mat := ⟨1, 2, fun _ => [0], fun _ j => if j = 0 then 1 else 0⟩
+
+example : IsLabelling (if (false || !oneByTwo.isSquare) = true then oneByTwo.block else oneByTwo).nRow
+    (if (false || !oneByTwo.isSquare) = true then oneByTwo.block else oneByTwo).adj false
+    ((fun _ _ => [0, 0, 1]) (if (false || !oneByTwo.isSquare) = true then oneByTwo.block else oneByTwo) false) :=
+  contract_line_certifies 3 oneByTwo.block.adj (by decide) false [0, 0, 1] (by decide)
 
 /-- The executable check of a `spec_acyclic` / `spec_cycles` line on a directed graph (`hasCycleB`: some edge whose
     head reaches its tail, by the reachability closure) decides `HasCycle`. -/
